@@ -92,6 +92,9 @@ func (p Policy) String() string {
 type FaultPlan struct {
 	Rate map[string]int // kind -> permille
 	Max  map[string]int // kind -> max fires per run (0 = unlimited)
+	// Nth: kind -> fire exactly at the n-th eligible site of that kind (1-based, in encounter order), once.
+	// Used by the placement sweeps: consecutive run seeds walk a fault over every site of one base scenario.
+	Nth map[string]int
 	// Forced decisions by address (used by replay/minimisation): "label#occ" -> kind ("" disables)
 	Forced map[string]string
 	// Disabled addresses
@@ -115,6 +118,7 @@ type Sim struct {
 	onKill     map[string]func()
 	fired      map[string]int
 	firedGroup map[string]int // "deadline@<job unit>" -> timeouts injected on that unit
+	eligible   map[string]int // kind -> eligible sites seen so far (for FaultPlan.Nth)
 	firedAt    []string
 	steps      int
 	stalls     int
@@ -142,6 +146,7 @@ func NewSim(seed uint64, policy Policy) *Sim {
 		onKill:     map[string]func(){},
 		fired:      map[string]int{},
 		firedGroup: map[string]int{},
+		eligible:   map[string]int{},
 		keepText:   true,
 		start:      time.Now(),
 	}
@@ -343,6 +348,14 @@ func (s *Sim) faultFor(t *task) Decision {
 	}
 	if s.Faults.Off[addr] {
 		return Decision{}
+	}
+	for _, k := range t.fk {
+		if n := s.Faults.Nth[k]; n > 0 {
+			s.eligible[k]++
+			if s.eligible[k] == n {
+				return Decision{Fault: k, Arg: int(H(s.Seed, "farg", t.label, fmt.Sprint(t.occ)) % 64)}
+			}
+		}
 	}
 	for _, k := range t.fk {
 		rate := s.Faults.Rate[k]
